@@ -1,5 +1,6 @@
 import St4sd.Model.Env
 import St4sd.Model.C17Vars
+import St4sd.Model.C17Scalar
 import St4sd.Lemmas.C15Assoc
 /-!
 # C17 — Component environments are built only from their declared sources
@@ -963,5 +964,178 @@ example : envForNodeV sys0 ⟨loadEnvs [("default".toList, [("e".toList, [("K".t
     "default".toList launch0 (some "e".toList) false false = .error .unknownVar := by decide
 example : tokV .normal "a%(x-1)s%(".toList =
     [.lit 'a', .ref "x-1".toList "%(x-1)s".toList, .lit '%', .lit '('] := by decide
+
+/-! ### typed scalars as values (`Model/C17Scalar.lean`)
+
+A FlowIR document may give an environment variable an integer, a float, a boolean or nothing instead of a
+string.  `get_platform_environment` converts every value with `env_value_to_string` (`Scalar.text`): the theorems
+below restate the layering and the "what is present" theorems for typed documents — a value is never lost because
+it is *falsy* (`0`, `0.0`, `false`); only null and the empty string have an empty text. -/
+
+private theorem dget_map_snd {β γ : Type} (f : β → γ) (l : List (S × β)) (k : S) :
+    dget (l.map fun kv => (kv.1, f kv.2)) k = (dget l k).map f := by
+  induction l with
+  | nil => rfl
+  | cons e r ih =>
+    simp only [List.map_cons, dget]
+    split <;> simp [ih]
+
+private theorem dgetLast_map_snd {β γ : Type} (f : β → γ) (l : List (S × β)) (k : S) :
+    dgetLast (l.map fun kv => (kv.1, f kv.2)) k = (dgetLast l k).map f := by
+  induction l with
+  | nil => rfl
+  | cons e r ih =>
+    simp only [List.map_cons, dgetLast, ih]
+    cases dgetLast r k with
+    | some w => rfl
+    | none =>
+      simp only [Option.map_none]
+      split <;> rfl
+
+/-- the comprehension of `get_platform_environment`, key by key -/
+theorem dget_textDict (d : TDict) (k : S) : dget (textDict d) k = (dget d k).map Scalar.text :=
+  dget_map_snd _ _ _
+
+/-- **platEnvT_eq.**  `get_platform_environment` as coded on a typed document (look the environment up, then convert
+every value) answers what `platEnv` answers on the text document: converting when the document is loaded and
+converting when an environment is read are the same thing. -/
+theorem platEnvT_eq (e : TEnvs) (nm plat : S) : platEnvT e nm plat = platEnv (textEnvs e) nm plat := by
+  unfold platEnvT platRawT platEnv textEnvs textEnvsWith
+  by_cases h : (lower nm == sNone) = true
+  · simp [h, textDict, textDictWith]
+  · simp only [h, Bool.false_eq_true, if_false]
+    rw [dget_map_snd]
+    cases dget e plat with
+    | none => rfl
+    | some pe =>
+      simp only [Option.map_some]
+      rw [dget_map_snd]
+      cases dget pe (lower nm) <;> rfl
+
+/-- literal of a typed input document read key-wise (a repeated key keeps its last value) -/
+def litGetT : Except Err TDict → S → Option Scalar
+  | .ok d, k => dgetLast d k
+  | .error _, _ => none
+
+/-- **typed_platform_over_default.**  For a typed package the named environment visible to a platform is, key by
+key, the text of the scalar the platform's own environment of that name declares — *whatever that scalar is*: `0`,
+`0.0`, `false` and null included, they override the default platform's value like any other — else the text of
+the scalar the default platform's environment declares. -/
+theorem typed_platform_over_default (e : TEnvs) (nm plat : S) (r : Dict)
+    (h : getEnv (textEnvs e) nm plat = .ok r) (k : S) :
+    dget r k = match litGetT (platRawT e nm plat) k with
+      | some v => some v.text
+      | none => (litGetT (platRawT e nm sDefault) k).map Scalar.text := by
+  have key : ∀ p, litGet (platEnv (textEnvs e) nm p) k = (litGetT (platRawT e nm p) k).map Scalar.text := by
+    intro p
+    rw [← platEnvT_eq]
+    unfold platEnvT
+    cases platRawT e nm p with
+    | error x => rfl
+    | ok d => exact dgetLast_map_snd _ _ _
+  rw [platform_over_default _ _ _ _ h k, key, key]
+  cases litGetT (platRawT e nm plat) k <;> rfl
+
+private theorem natToDigitsAux_ne_nil (fuel n : Nat) (acc : S) (h : acc ≠ []) : natToDigitsAux fuel n acc ≠ [] := by
+  induction fuel generalizing n acc with
+  | zero => exact h
+  | succ f ih =>
+    unfold natToDigitsAux
+    simp only
+    split
+    · simp
+    · exact ih _ _ (by simp)
+
+private theorem intText_ne_nil (i : Int) : intText i ≠ [] := by
+  cases i with
+  | ofNat n =>
+    unfold intText natToDigits natToDigitsAux
+    simp only
+    split
+    · simp
+    · exact natToDigitsAux_ne_nil _ _ _ (by simp)
+  | negSucc n => simp [intText]
+
+/-- **text_isEmpty.**  Exactly null and the empty string (and a float without text, which does not exist) are
+converted to the empty text: no integer and no boolean — `0` and `false` included — is. -/
+theorem text_isEmpty (v : Scalar) : v.text.isEmpty = v.declaredEmpty := by
+  cases v with
+  | null => rfl
+  | bool b => cases b <;> rfl
+  | int i =>
+    have := intText_ne_nil i
+    simp only [Scalar.text, Scalar.declaredEmpty]
+    cases hi : intText i with
+    | nil => exact absurd hi this
+    | cons _ _ => rfl
+  | float t => rfl
+  | str s => rfl
+
+/-- **typed_declared_kept.**  A variable the (typed) environment declares with a scalar other than null / the
+empty string is present after the final expansion — falsy scalars (`0`, `0.0`, `false`) included. -/
+theorem typed_declared_kept (launch : Dict) (env : TDict) (k : S) (v : Scalar) (h : dget env k = some v)
+    (hv : v.declaredEmpty = false) : has (expandAll launch (textDict env)) k :=
+  nonempty_declared_kept launch (textDict env) k v.text (by rw [dget_textDict, h]; rfl) (by rw [text_isEmpty, hv])
+
+private theorem tokT_no_dollar (s : S) (h : ∀ c ∈ s, (c == '$') = false) : tokT .normal s = lits s := by
+  induction s with
+  | nil => rfl
+  | cons c cs ih =>
+    have hc := h c (by simp)
+    simp only [tokT, hc, Bool.false_eq_true, if_false, lits, List.map_cons]
+    rw [ih (fun d hd => h d (by simp [hd]))]
+    rfl
+
+private theorem tokE_no_dollar (s : S) (h : ∀ c ∈ s, (c == '$') = false) : tokE .normal s = lits s := by
+  induction s with
+  | nil => rfl
+  | cons c cs ih =>
+    have hc := h c (by simp)
+    simp only [tokE, hc, Bool.false_eq_true, if_false, lits, List.map_cons]
+    rw [ih (fun d hd => h d (by simp [hd]))]
+    rfl
+
+/-- **typed_value_verbatim.**  … and its value is the text of the scalar, verbatim, whatever the launch environment
+holds under that or any other name (the text of a number or a boolean contains no `$`). -/
+theorem typed_value_verbatim (launch : Dict) (env : TDict) (k : S) (v : Scalar) (h : dget env k = some v)
+    (hv : v.declaredEmpty = false) (hlit : ∀ c ∈ v.text, (c == '$') = false) :
+    dget (expandAll launch (textDict env)) k = some v.text := by
+  rw [dget_expandAll]
+  unfold expandVal
+  rw [dget_textDict, h]
+  simp only [Option.map_some]
+  rw [text_isEmpty, hv]
+  simp only [Bool.false_eq_true, if_false]
+  unfold substT expandvars
+  rw [tokT_no_dollar _ hlit, render_lits, tokE_no_dollar _ hlit, render_lits]
+
+/-! non-vacuity: `OMP_NUM_THREADS: 0`, `USE_GPU: false`, `SCALE: 0.0` satisfy the hypotheses; a typed package in
+which the selected platform re-declares the default platform's `4 / true / 1.5` as `0 / false / 0.0` -/
+
+example : (Scalar.int 0).declaredEmpty = false ∧ (∀ c ∈ (Scalar.int 0).text, (c == '$') = false) := by decide
+example : (Scalar.bool false).declaredEmpty = false ∧ (∀ c ∈ (Scalar.bool false).text, (c == '$') = false) := by
+  decide
+example : (Scalar.float "0.0".toList).declaredEmpty = false ∧
+    (∀ c ∈ (Scalar.float "0.0".toList).text, (c == '$') = false) := by decide
+example : (Scalar.int (-12)).text = "-12".toList ∧ (Scalar.int 0).text = "0".toList ∧
+    (Scalar.int 100000000000000000000).text = "100000000000000000000".toList := by decide
+
+private def envsT : TEnvs :=
+  [("default".toList, [("gpu".toList, [("OMP".toList, .int 4), ("USE_GPU".toList, .bool true),
+      ("SCALE".toList, .float "1.5".toList), ("UNSET".toList, .str "d".toList),
+      ("LAUNCH".toList, .str "run --threads=${OMP} --gpu=$USE_GPU".toList)])]),
+   ("single".toList, [("GPU".toList, [("OMP".toList, .int 0), ("USE_GPU".toList, .bool false),
+      ("SCALE".toList, .float "0.0".toList), ("UNSET".toList, .null)])])]
+
+example : envForNodeT sys0 envsT "single".toList [("OMP".toList, "64".toList)] (some "gpu".toList) false true false =
+    .ok [("INSTANCE_DIR".toList, "/i".toList), ("OMP".toList, "0".toList), ("USE_GPU".toList, "False".toList),
+         ("SCALE".toList, "0.0".toList), ("LAUNCH".toList, "run --threads=0 --gpu=False".toList)] := by decide
+example : envForNodeT sys0 envsT "single".toList [] (some "gpu".toList) false false false =
+    envForNodeT sys0 envsT "single".toList [] (some "gpu".toList) false true false := by decide
+example : envForNodeVT sys0 [("default".toList, [("e".toList, [("K".toList, .str "%(n)s/%(b)s/%(K2)s".toList),
+      ("K2".toList, .float "0.0".toList)])])] [("default".toList, [("n".toList, .int 0), ("b".toList, .bool false)])]
+    "default".toList [] (some "e".toList) false false false =
+    .ok [("INSTANCE_DIR".toList, "/i".toList), ("K".toList, "0/False/0.0".toList), ("K2".toList, "0.0".toList)] := by
+  decide
 
 end St4sd.C17
